@@ -194,6 +194,11 @@ def p3(ctx):
                 inner = strip_role(r[1])
                 if isinstance(inner, tuple) and inner[0] == "call" and inner[1] in ("next", "pop", "pop_front", "first", "last") and role_mentions_field(inner, field):
                     out.extend(C.variant_edges(b, sb, 0))
+                # `next()?`: the Break arm of Try::branch is the None of the Option
+                if isinstance(inner, tuple) and inner[0] == "call" and inner[1] == "branch" and inner[3]:
+                    i2 = strip_role(inner[3][0])
+                    if isinstance(i2, tuple) and i2[0] == "call" and i2[1] in ("next", "pop", "pop_front", "first", "last") and role_mentions_field(i2, field):
+                        out.extend(C.variant_edges(b, sb, 1))
             elif r[0] == "call" and r[1] == "is_empty" and role_mentions_field(r, field):
                 out.append(("e", sb, "otherwise"))
         return out
